@@ -72,6 +72,8 @@ C04_FILES = {
     'nsa/c04/VtE.1.0.dsdl': 'uint8 h\nnsa.c04.VtD.1.0 d\n@sealed\n',
     'nsa/c04/VtU.1.0.dsdl': '@union\nnsa.c04.Vt1.1.0 a\nnsa.c04.Vt4.1.0 b\nuint8 c\n@sealed\n',
     'nsa/c04/VtV.1.0.dsdl': 'uint8[<=2] v\nvoid16\n@sealed\n',
+    # large enough to wrap a 16-bit cursor / capacity (8 KiB = 65536 bits): lengths around 8190..8194 are exercised on every run
+    'nsa/c04/Wide.1.0.dsdl': 'uint8[<=9000] data\nuint16 tail\n@sealed\n',
     'nsa/c04/Big.1.0.dsdl': 'uint64 big\nnsa.c04.Dl.1.0 d\nnsa.c04.Inner.1.0 i\nnsa.c04.Dl.1.0[<=2] ds\n@sealed\n',
 }
 
@@ -115,6 +117,16 @@ def des_cases(rng, prep, tids, sz) -> typing.List[campaign.Case]:
             idx.append((tid, v))
     encs: typing.Dict[str, typing.List[bytes]] = {tid: [] for tid in tids}
     pairs_of: typing.Dict[str, list] = {tid: [] for tid in tids}
+    for tid in tids:       # variable-length byte arrays with a capacity above 8 KiB: lengths around the 16-bit wrap point
+        c = prep.db.comp(tid)
+        for fi, f in enumerate(c['fields']):
+            t = f['type']
+            if c['kind'] == 'struct' and t['k'] == 'varr' and t['cap'] >= 8200 and t['elem']['k'] == 'uint' and t['elem'].get('w') == 8:
+                for n in (8189, 8190, 8191, 8192, 8193, t['cap']):
+                    v = valgen.default_comp(prep.db, c)
+                    v[fi] = [(i * 7 + n) & 0xFF for i in range(n)]
+                    reqs.append(m.ser_req(tid, v))
+                    idx.append((tid, v))
     for (tid, v), r in zip(idx, m.run(reqs)):
         t = r.split()
         if t[:1] == ['ok']:
@@ -132,7 +144,13 @@ def des_cases(rng, prep, tids, sz) -> typing.List[campaign.Case]:
         longest = sorted(encs[tid], key=len, reverse=True)[:2]
         for e in longest:
             full = e + b'\xff\xa5'
-            for n in range(0, min(len(full), ext + 2) + 1):
+            top = min(len(full), ext + 2)
+            if top <= 96:
+                sizes = list(range(0, top + 1))
+            else:       # long encodings: the ends, and the neighbourhood of every power-of-two bit count (cursor-width wrap points)
+                sizes = sorted(set(list(range(0, 17)) + list(range(top - 8, top + 1)) +
+                                   [k for p in (256, 1024, 4096, 8192) for k in range(p - 2, p + 3) if 0 <= k <= top]))
+            for n in sizes:
                 data.append((full[:n], ['every_truncation']))
         # delimiter headers that announce 1..4 bytes more than follow (and exactly what follows) -- at every header of two encodings
         for v, e in pairs_of[tid][:3]:
@@ -292,7 +310,7 @@ def run_replay(chk: core.Check, path: str) -> int:
     doc = json.load(open(path, encoding='utf-8'))
     if 'case' in doc and 'files' in doc and doc.get('target'):
         return campaign.run_replay(chk, doc['case'].get('op', 'des'), path)
-    res = core.coq_check(PROP, ['c04'])
+    res = core.coq_check(PROP, ['c04', 'c01', 'codec_tpl'])
     print('proof obligations: %s %s' % ('ok' if res.ok else 'BROKEN', res.error_text[-500:]))
     failures: typing.List[dict] = []
     stats: dict = {}
@@ -319,7 +337,7 @@ def main(chk: core.Check, replay: typing.Optional[str] = None) -> int:
     sz = SIZES[chk.tier]
 
     # 1. proof obligations (translator gen_c04 + make + Print Assumptions)
-    res = core.coq_check(PROP, ['c04'])
+    res = core.coq_check(PROP, ['c04', 'c01', 'codec_tpl'])
     chk.proof_coverage(res, TRUSTED)
     broken: typing.List[str] = []
     if not res.ok:
